@@ -8,6 +8,7 @@
    insurance balance, any token program and fee setting), every account index a and bank index b. *)
 Require Import Base Constants Panic AnchorTypes AnchorSem Gate AccountsTable HandlerFacts Spec AnchorSemLemmas AuthLemmas.
 Require Import Fixed Curve Bank BankOps Risk TransferFee Handlers FixedLemmas BankLemmas LedgerLemmas BankruptcyLemmas.
+Require Import SolvencyWorld HandlerWorld BridgeLemmas.
 Local Open Scope string_scope.
 Local Open Scope Z_scope.
 
@@ -206,3 +207,13 @@ Print Assumptions C07_socialize_in_ledger_worlds.
 Print Assumptions C07_loss_shared_pro_rata.
 Print Assumptions C07_debt_cleared_account_disabled.
 Print Assumptions C07_who_may_call.
+
+(* the local hypotheses of the two theorems above (bank_sane, Forall wf_bal) hold in every state reachable from a
+   well-formed world: HOk2 is preserved by every instruction (C01_wellformedness_preserved) and implies them *)
+Theorem C07_hypotheses_hold_in_wellformed_worlds :
+  forall w, HandlerWorld.HOk2 w ->
+  (forall b hb, nth_bank w b = Ok hb -> bank_sane (hb_b hb)) /\
+  (forall a ac, nth_acct w a = Ok ac -> Forall wf_bal (ha_la ac)).
+Proof. intros w H. split; [intros b hb; apply BridgeLemmas.HOk2_bank_sane; exact H | intros a ac; apply BridgeLemmas.HOk2_acct_wf; exact H]. Qed.
+
+Print Assumptions C07_hypotheses_hold_in_wellformed_worlds.
